@@ -18,8 +18,9 @@ fn lonlat() -> (f64, f64) {
 fn ref_quarter_u(lon: f64) -> (u64, f64) {
   let x = f64::from_bits(lon.to_bits() & 0x7FFF_FFFF_FFFF_FFFF) * FOUR_OVER_PI_K;        // in [0, 32.1]
   let x8 = x - 8.0 * ((x * 0.125) as u64 as f64);                                        // x mod 8, exact (no float division: a divider circuit is expensive)
-  let q8 = (x8 * 0.5) as u64;                                                            // 0..=3
-  let up = x8 - (2 * q8 + 1) as f64;                                                     // exact, in [-1, 1)
+  let of = (x8 as u64) | 1;                                                              // odd floor of x mod 8: 1, 3, 5 or 7 (x8 = 8 cannot happen: x8 < 8)
+  let q8 = of >> 1;                                                                      // quarter 0..=3
+  let up = x8 - of as f64;                                                               // exact, in [-1, 1)
   if lon.to_bits() >> 63 == 0 { (q8, up) } else { (3 - q8, -up) }
 }
 
@@ -122,15 +123,17 @@ fn k_c01_p(region: u8, neg: bool, bits: u8, quarter: u8, turn: u8) {
 /// Coarse placement (quick tier): the reference projection of the position lies in (or within 2^-20 of) the closed diamond of the
 /// base cell returned by the real Layer::d0h_lh_in_d0c. Independent of the in-cell coordinates (decided by lemma P, thorough tier).
 /// class (equatorial region only): 0 = north polar base cell returned, 1 = south polar, 2 = equatorial; 255 = any
-fn k_c01_b(region: u8, neg: bool, class: u8) {
+/// first_turn: restrict to |lon| 4/pi < 8 (quick tier for the equatorial region; the reduction modulo 8 makes the general case slow)
+fn k_c01_b(region: u8, neg: bool, class: u8, first_turn: bool) {
   let (lon, lat) = lonlat();
+  if first_turn { kani::assume(f64::from_bits(lon.to_bits() & 0x7FFF_FFFF_FFFF_FFFF) * FOUR_OVER_PI_K < 8.0); }
   kani::assume((lon.to_bits() >> 63 == 1) == neg);
   kani::assume(match region { 0 => lat > C_T, 1 => lat >= -C_T && lat <= C_T, _ => lat < -C_T });
   let (d0h, _l, _h) = Layer::d0h_lh_in_d0c(lon, lat);
   kani::assume(d0h < 12);                                                                   // decided by lemma R
   kani::assume(match class { 0 => d0h < 4, 1 => d0h >= 8, 2 => d0h >= 4 && d0h < 8, _ => true });
   let (rq, ru) = ref_quarter_u(lon);
-  kani::cover!(lon > 7.0 || lon < -7.0, "second turn");
+  kani::cover!(first_turn || lon > 7.0 || lon < -7.0, "second turn");
   if region == 1 {
     let yr = lat.sin() * 1.5;
     // the quarter square [2q, 2q+2] x [-1, 1] is cut by its diagonals into the north polar cell q, the south polar cell 8+q and the
